@@ -219,6 +219,54 @@ theorem invFo_step {c : Cfg} {e : Nat} (wf : WF c e) (hm : c.rm = .once) {s s' :
     (i : InvAll c s) (f : InvFo c s) (hs : stepSt c s t = some s') : InvFo c s' :=
   ⟨invFo_step_fw hm i f hs, invFo_step_bl wf hm i f hs⟩
 
+/-! ## the spurious futex return (`spurSt`): a sleeper leaves, nobody else is affected -/
+
+theorem cntP_pending_spur {c : Cfg} {s : St} {t : Nat} (hb : s.pc t = .rBlocked) (ht : t < c.nT) :
+    cntP pending (upd s.pc t (afterFutex c)) c.nT = cntP pending s.pc c.nT := by
+  have := cntP_upd pending s.pc c.nT t (afterFutex c) ht
+  have hq : pending (afterFutex c) = false := by unfold afterFutex; split <;> rfl
+  have hbf : pending Pc.rBlocked = false := rfl
+  rw [hb, hq, hbf] at this
+  simpa using this
+
+theorem invF_spur {c : Cfg} {s s' : St} {t : Nat} (i : InvAll c s) (f : InvF c s)
+    (hs : spurSt c s t = some s') : InvF c s' := by
+  obtain ⟨hb, rfl⟩ := spur_eq hs
+  have ht : t < c.nT := by
+    apply Classical.byContradiction; intro hn
+    have := i.b.dn t (by omega); simp [this] at hb
+  have hc := cntP_pending_spur (c := c) hb ht
+  obtain ⟨f1, f2⟩ := f
+  refine ⟨?_, ?_⟩
+  · intro u v hu
+    by_cases hut : u = t
+    · subst hut; simp only [upd_same, afterFutex] at hu; split at hu <;> cases hu
+    · simp only [upd_other _ _ _ _ hut] at hu; exact f1 u v hu
+  · intro u hu
+    simp only [hc]
+    by_cases hut : u = t
+    · subst hut; simp only [upd_same, afterFutex] at hu; split at hu <;> cases hu
+    · simp only [upd_other _ _ _ _ hut] at hu; exact f2 u hu
+
+theorem invFo_spur {c : Cfg} {s s' : St} {t : Nat} (i : InvAll c s) (f : InvFo c s)
+    (hs : spurSt c s t = some s') : InvFo c s' := by
+  obtain ⟨hb, rfl⟩ := spur_eq hs
+  have ht : t < c.nT := by
+    apply Classical.byContradiction; intro hn
+    have := i.b.dn t (by omega); simp [this] at hb
+  have hc := cntP_pending_spur (c := c) hb ht
+  obtain ⟨f1, f2⟩ := f
+  refine ⟨?_, ?_⟩
+  · intro u v hu
+    by_cases hut : u = t
+    · subst hut; simp only [upd_same, afterFutex] at hu; split at hu <;> cases hu
+    · simp only [upd_other _ _ _ _ hut] at hu; exact f1 u v hu
+  · intro u hu
+    simp only [hc]
+    by_cases hut : u = t
+    · subst hut; simp only [upd_same, afterFutex] at hu; split at hu <;> cases hu
+    · simp only [upd_other _ _ _ _ hut] at hu; exact f2 u hu
+
 /-! ## the property theorems -/
 
 theorem invF_reach {c : Cfg} {e : Nat} (wf : WF c e) (hmW : c.rm = .wait ∨ c.rm = .singleWait)
@@ -226,19 +274,17 @@ theorem invF_reach {c : Cfg} {e : Nat} (wf : WF c e) (hmW : c.rm = .wait ∨ c.r
     InvAll c s ∧ InvF c s := by
   refine Reach.inv (fun s => InvAll c s ∧ InvF c s) ⟨inv_init wf, invF_init c⟩ ?_ s hr
   intro s tok s' ev h hs
-  simp only [step, Option.map_eq_some_iff] at hs
-  obtain ⟨s1, hs1, heq⟩ := hs
-  cases heq
-  exact ⟨inv_step wf h.1 hs1, invF_step wf hmW hsr h.1 h.2 hs1⟩
+  rcases step_cases hs with hs1 | hs1
+  · exact ⟨inv_spur h.1 hs1, invF_spur h.1 h.2 hs1⟩
+  · exact ⟨inv_step wf h.1 hs1, invF_step wf hmW hsr h.1 h.2 hs1⟩
 
 theorem invFo_reach {c : Cfg} {e : Nat} (wf : WF c e) (hm : c.rm = .once)
     {s : St} (hr : Reach (step c) (mkInit c) s) : InvAll c s ∧ InvFo c s := by
   refine Reach.inv (fun s => InvAll c s ∧ InvFo c s) ⟨inv_init wf, invFo_init c⟩ ?_ s hr
   intro s tok s' ev h hs
-  simp only [step, Option.map_eq_some_iff] at hs
-  obtain ⟨s1, hs1, heq⟩ := hs
-  cases heq
-  exact ⟨inv_step wf h.1 hs1, invFo_step wf hm h.1 h.2 hs1⟩
+  rcases step_cases hs with hs1 | hs1
+  · exact ⟨inv_spur h.1 hs1, invFo_spur h.1 h.2 hs1⟩
+  · exact ⟨inv_step wf h.1 hs1, invFo_step wf hm h.1 h.2 hs1⟩
 
 /-- **Blocked implies reason** (wait and single-wait readers, DESIGN C03 theorem 1): in every
 reachable state a reader parked in `futex_wait(cursor, v)` either waits for a message that has
